@@ -34,8 +34,10 @@ def fmt(a):
 
 
 def one_run(kernel="rw", schedule="S1", seed=7, seedform="int", chains=3, multi=False,
-            inits=(0.25, 0.25, 0.25), jitter=False):
-    cid = f"{kernel}|{schedule}|c{chains}|seed{seed}|jit{int(jitter)}"
+            inits=(0.25, 0.25, 0.25), jitter=False, engine_seed="none", rebuild=False):
+    """engine_seed: "none" | "int" | "key" - EngineBuilder.set_engine_seed with seed + 100 in that form;
+    rebuild: the engine is built twice from the same builder and the second engine is run."""
+    cid = f"{kernel}|{schedule}|c{chains}|seed{seed}|jit{int(jitter)}|es{int(engine_seed != 'none')}"
     ev = {"ev": "run", "cid": cid, "seedform": seedform, "multi": bool(multi),
           "inits": [repr(float(v)) for v in inits], "digests": [], "first": [], "expect": [],
           "jitter_keys_distinct": True, "crash": ""}
@@ -44,6 +46,8 @@ def one_run(kernel="rw", schedule="S1", seed=7, seedform="int", chains=3, multi=
         sd = seed if seedform == "int" else jax.random.PRNGKey(seed)
         b = gs.EngineBuilder(seed=sd, num_chains=chains)
         b.set_model(gs.DictInterface(logp))
+        if engine_seed != "none":
+            b.set_engine_seed(seed + 100 if engine_seed == "int" else jax.random.PRNGKey(seed + 100))
         if multi:
             b.set_initial_values(stack_leaves([state_of(v) for v in inits]), multiple_chains=True)
         else:
@@ -74,6 +78,8 @@ def one_run(kernel="rw", schedule="S1", seed=7, seedform="int", chains=3, multi=
             b.set_jitter_fns({"x": make_jit("x"), "y": make_jit("y")})
         b.show_progress = False
         eng = b.build()
+        if rebuild:
+            eng = b.build()
         eng.sample_all_epochs()
         jax.effects_barrier()
         res = eng.get_results()
@@ -140,6 +146,21 @@ def table_jobs(quick=True):
             dict(base, seedform="int", multi=True, inits=(0.25, -1.0, 2.0), jitter=True),
             dict(base, seedform="int", multi=True, inits=(0.25, -1.5, 2.0), jitter=True),
             dict(base, seedform="int", multi=True, inits=(0.25, 0.25, 0.25)),
+            # the same builder builds a second engine: same results as a first build
+            dict(base, seedform="int", inits=(0.25, 0.25, 0.25), jitter=True, rebuild=True),
+            dict(base, seedform="int", multi=True, inits=(0.25, -1.0, 2.0), jitter=True, rebuild=True),
+            dict(base, seedform="int", inits=(0.25, 0.25, 0.25), rebuild=True),
         ]
         tabs.append(t)
+    # EngineBuilder.set_engine_seed in both forms, for several chain counts (a raw key has shape (2,))
+    for chains in ((2, 1) if quick else (2, 1, 4)):
+        base = dict(kernel="rw", schedule="S1", seed=11, chains=chains)
+        ini = tuple([0.25] * chains)
+        tabs.append([
+            dict(base, seedform="int", inits=ini, engine_seed="int"),
+            dict(base, seedform="int", inits=ini, engine_seed="key"),
+            dict(base, seedform="key", inits=ini, engine_seed="int"),
+            dict(base, seedform="int", inits=ini, engine_seed="int", jitter=True),
+            dict(base, seedform="key", inits=ini, engine_seed="key", jitter=True),
+        ])
     return tabs
